@@ -428,6 +428,12 @@ def p5(ctx: Ctx):
         # module-level instances of classes that keep state in attributes set outside __init__, used inside functions
         for gname, v in sorted(m.assigns.items()):
             if not (isinstance(v, ast.Call) and isinstance(v.func, ast.Name) and v.func.id in py.classes):
+                # objects kept inside a module-level container (`LINES = [BasicLine(...), ...]`) are shared the same way:
+                # the passes patch constructs in place and programs adopt the lines they are handed
+                inner = [c for c in ast.walk(v) if isinstance(c, ast.Call) and isinstance(c.func, ast.Name) and c.func.id in py.classes and py.is_subclass(c.func.id, "AbstractBasicConstruct")] if isinstance(v, (ast.List, ast.Tuple, ast.Dict, ast.Set)) else []
+                users_c = [fn for fn in ast.walk(m.tree) if isinstance(fn, ast.FunctionDef) and any(isinstance(x, ast.Name) and x.id == gname and isinstance(x.ctx, ast.Load) for x in ast.walk(fn))]
+                if inner and users_c:
+                    ctx.ob(f"{m.rel}:{gname}:shared-constructs", False, f"module-level `{gname}` holds `{inner[0].func.id}` objects built once per process and handed out by `{users_c[0].name}`: constructs are patched in place by the passes (and a program keeps the lines it is given), so what one conversion does to them is still there in the next", file=m.rel, line=v.lineno)
                 continue
             cinfo = py.classes[v.func.id]
             stateful = [f"{c2.name}.{mn}" for c2 in py.mro(v.func.id) for mn, mf in c2.methods.items() if mn != "__init__" and any(isinstance(a, (ast.Assign, ast.AugAssign)) and any(is_self_attr(t) for t in (a.targets if isinstance(a, ast.Assign) else [a.target])) for a in ast.walk(mf))] + [f"{c2.name}.{mn}" for c2 in py.mro(v.func.id) for mn, mf in c2.methods.items() if mn != "__init__" and any(isinstance(c, ast.Call) and isinstance(c.func, ast.Attribute) and c.func.attr in _MUTATORS_P5 and is_self_attr(c.func.value) for c in ast.walk(mf))]
